@@ -453,6 +453,12 @@ static void gen(Emitter &em, const Options &opt) {
     out.hist("corpus", "D0;g0,300,7;M1,0;a0:21;X1;a0:22");                      // … in heap mode (aliasing, then use after free)
     out.hist("corpus", "D0;g0,300,7;D1;g1,600,9;m1,0;g0,300,8;m0,1;a1:21;a0:22");
 
+    // (0b) degenerate arguments: null pointers, zero sizes and counts, in both storage modes
+    for (size_t pre : {(size_t)0, (size_t)256, (size_t)300}) {
+        std::string ops = "D0"; if (pre) ops += ";g0," + U(pre) + ",9";
+        out.hist("degenerate", ops + ";z0:N;z0:-;a0:-;c0,0,65;o0,cstr:N;o0,u8s:N;s0,1,d;a0:41;z0:N;s0,1,c;t0," + U(pre + 1) + ";e0,0;u0;z0:N;s0,0,d");
+    }
+
     // (1) landing: cumulative sizes at every boundary, reached by 1..4 appends of every form, then one of every kind of follow-up
     for (size_t target : LAND) for (int parts = 1; parts <= 4; ++parts) for (int variant = 0; variant < (thorough ? 24 : 6); ++variant) {
         G g; g.live[0] = true; std::string ops = "D0";
